@@ -6,6 +6,15 @@ verus! {
 //@ default-tags C12
 //@ verus-flags --no-lifetime
 //@ include ../_common/str_prelude.rs
+// str::to_ascii_lowercase and the bytes of the String it returns (trusted; present so that a constructor that canonicalises its
+// argument before hashing is decided instead of being outside the dialect)
+pub open spec fn lower_byte(c: u8) -> u8 { if 65 <= c && c <= 90 { (c + 32) as u8 } else { c } }
+pub open spec fn ascii_lower(b: Seq<u8>) -> Seq<u8> { Seq::new(b.len(), |i: int| lower_byte(b[i])) }
+pub uninterp spec fn string_bytes(s: String) -> Seq<u8>;
+pub trait VxStrLower { fn vx_to_ascii_lowercase(&self) -> (r: String); }
+impl VxStrLower for str { #[verifier::external_body] fn vx_to_ascii_lowercase(&self) -> (r: String) ensures string_bytes(r) == ascii_lower(sb(self)) { self.to_ascii_lowercase() } }
+pub trait VxStringBytes { fn vx_as_bytes(&self) -> (r: &[u8]); }
+impl VxStringBytes for String { #[verifier::external_body] fn vx_as_bytes(&self) -> (r: &[u8]) ensures r@ == string_bytes(*self) { self.as_bytes() } }
 pub assume_specification<T> [bool::then_some] (b: bool, t: T) -> (r: Option<T>)
     ensures r == (if b { Some(t) } else { None::<T> });
 // ---- dependency models (trusted)
